@@ -223,10 +223,9 @@ class Cron(addons.AddonMainTask, block.SBlock):
                         ):
                     self.log_warning("Apparently a DST (summer time) clock change has occured.")
                 self.log_warning("Resetting due to a time tracking problem.")
-                for blk in set().union(*self._alarms.values()):  # all blocks (possibly none)
-                    assert hasattr(blk, 'recalc')
-                    blk.recalc(nowdt)
-                index = None
+                # recalculate all blocks and the index with one and the same timestamp,
+                # otherwise a wakeup time between two clock readings would be skipped
+                reload.set()
                 continue
             if reload:
                 continue
